@@ -374,6 +374,26 @@ func c12RestoreScan(K int, maxG int) {
 	}
 	rt.Assert(next >= uint32(last+1), "restored-next-index-is-beyond-every-used-address")
 	rt.Assert(next == want, "restored-next-index-is-exactly-last-used-plus-one-or-the-hint")
+	// every address below the restored counter is an address of the wallet: its public key is stored (a reload builds
+	// the address list from these records alone; an index without one is an address the restored wallet neither
+	// knows nor will ever issue), once, and nothing is stored at or above the counter
+	pub := acct.Sub(pubKeyBucket)
+	for i := uint32(0); i < uint32(K); i++ {
+		key := make([]byte, 8)
+		binary.LittleEndian.PutUint32(key, ExternalBranch)
+		binary.LittleEndian.PutUint32(key[4:], i)
+		n := 0
+		for _, e := range pub.Ents {
+			if bytes.Equal(e.K, key) {
+				n++
+			}
+		}
+		if i < next {
+			rt.Assert(n == 1, "public-key-of-every-address-below-the-restored-counter-is-stored")
+		} else {
+			rt.Assert(n == 0, "no-address-record-at-or-above-the-restored-counter")
+		}
+	}
 	rt.Reach("restored")
 	rt.Reach("end")
 }
